@@ -186,6 +186,17 @@ func c17Calls(r *rand.Rand) []c17Call {
 			return normOut(buf.Bytes(), err)
 		}})
 	}
+	// SPDX writes that differ in their render options: each must come out with its own indentation
+	for _, ind := range []int{0, 1, 3, 7} {
+		ind := ind
+		calls = append(calls, c17Call{fmt.Sprintf("write-spdx-indent-%d", ind), func() string {
+			var buf bytes.Buffer
+			w := writer.New(writer.WithFormat(formats.SPDX23JSON), writer.WithRenderOptions(&native.RenderOptions{Indent: ind}))
+			err := w.WriteStream(gen.Clone(spdxDoc), nopWC{&buf})
+			_, got := c18Measure(buf.Bytes())
+			return fmt.Sprintf("indent=%d;%s", got, normOut(buf.Bytes(), err))
+		}})
+	}
 	// one writer and one reader shared by all goroutines (instances are read-only while in use)
 	sharedW := writer.New(writer.WithFormat(formats.CDX15JSON))
 	sharedR := reader.New(reader.WithFormatOptions("shared", 1))
